@@ -112,13 +112,20 @@ class Worker:
 def run_check(tier, seed, nworkers=None, nruns=None, budget_s=None, evidence_path=None,
               want_records=False, quiet=False):
     t0 = time.monotonic()
-    nworkers = nworkers or int(os.environ.get("VERIF_WORKERS", 0)) or min(16, os.cpu_count() or 1)
+    try:
+        ncpu = len(os.sched_getaffinity(0))
+    except (AttributeError, OSError):
+        ncpu = os.cpu_count() or 1
+    nworkers = nworkers or int(os.environ.get("VERIF_WORKERS", 0)) or max(2, min(16, ncpu))
     if budget_s is None:
+        # wall-clock budget after which workers start no further run (what was
+        # explored by then is what the evidence reports); on 16 cores the quick
+        # plan finishes well inside it
         budget_s = float(os.environ.get("VERIF_BUDGET_S", 0)) or \
-            (1500 if tier == "quick" else 2400)
+            (330 if tier == "quick" else 2400)
     sys.path.insert(0, VERIF)
     from sim import runner
-    plan = runner.build_plan(tier, nruns)
+    plan = runner.build_plan(tier, nruns, seed)
     n = len(plan)
     tmp = tempfile.mkdtemp(prefix="pyecc-sim-")
     cache_dirs = {"std": os.path.join(tmp, "gold-std"), "OO": os.path.join(tmp, "gold-OO")}
@@ -132,8 +139,10 @@ def run_check(tier, seed, nworkers=None, nruns=None, budget_s=None, evidence_pat
     env.pop("PYTHONOPTIMIZE", None)
     q = queue.Queue()
     vs = variants(nworkers, seed)
-    by_class = {"std": [i for i in range(n) if not is_oo_index(i)],
-                "OO": [i for i in range(n) if is_oo_index(i)]}
+    only = [x for x in (os.environ.get("SIM_ONLY") or "").split(",") if x]   # developer aid
+    sel = [i for i in range(n) if not only or plan[i][0] in only]
+    by_class = {"std": [i for i in sel if not is_oo_index(i)],
+                "OO": [i for i in sel if is_oo_index(i)]}
     members = {c: [w for w, v in enumerate(vs) if v["class"] == c] for c in by_class}
     workers = []
     for w, v in enumerate(vs):
@@ -141,7 +150,10 @@ def run_check(tier, seed, nworkers=None, nruns=None, budget_s=None, evidence_pat
         pos = members[c].index(w)
         peer = members[c][(pos + 1) % len(members[c])]
         peer_list = by_class[c][members[c].index(peer)::len(members[c])]
-        recheck = peer_list[-2:] if (len(members[c]) > 1 or True) else []
+        # determinism sample: two of the peer's runs, from the middle of its list so
+        # that they are executed by the peer even when the wall budget cuts the plan
+        recheck = [peer_list[len(peer_list) // 5], peer_list[len(peer_list) // 3]] \
+            if len(peer_list) >= 3 else []
         job = {"seed": seed, "tier": tier, "nruns": nruns, "variant": v,
                "recheck": recheck,
                "cache_dir": cache_dirs[c],
@@ -161,7 +173,7 @@ def run_check(tier, seed, nworkers=None, nruns=None, budget_s=None, evidence_pat
         "sites": set(), "fault_sites": set(), "interleavings": set(), "samples": [],
         "harness_errors": [], "violations": [], "hello": {}, "server_stats": [],
         "deadline_hit": [], "digests": {}, "records": {}, "max_tasks": 0,
-        "model_s": 0.0, "sim_s": 0.0, "reruns": {},
+        "model_s": 0.0, "sim_s": 0.0, "reruns": {}, "start_failures": {},
     }
     live = set(range(nworkers))
     last_msg = time.monotonic()
@@ -233,13 +245,16 @@ def run_check(tier, seed, nworkers=None, nruns=None, budget_s=None, evidence_pat
             agg["deadline_hit"].append((w, msg["next_index"]))
         elif ty == "bye":
             agg["server_stats"].append(msg["server_stats"])
+        elif ty == "start_failure":
+            agg["start_failures"][w] = msg
         elif ty == "harness_error":
             agg["harness_errors"].append("worker %d: %s" % (w, msg["what"]))
         elif ty == "garbage":
             agg["harness_errors"].append("worker %d printed: %s" % (w, msg["line"]))
         elif ty == "exit":
             live.discard(w)
-            if msg["code"] != 0 and not agg.get("stopped_at_first"):
+            if msg["code"] != 0 and not agg.get("stopped_at_first") and \
+                    w not in agg["start_failures"]:
                 agg["harness_errors"].append(
                     "worker %d exited with %s: %s" % (w, msg["code"],
                                                       "".join(workers[w].err)[-1500:]))
@@ -286,6 +301,28 @@ def run_check(tier, seed, nworkers=None, nruns=None, budget_s=None, evidence_pat
                                  "(import order / hash seed / -O)",
                          "keys": keys[:20],
                          "groups": {d: [vs[w] for w in ws] for d, ws in snap.items()}}}
+    # a process variant (another import order / hash seed / -O) in which the package
+    # cannot even be imported, while the default variant imports fine, is a
+    # process-lifetime dependence (H9); if the default variant fails too the tree is
+    # simply broken and that is the harness's problem, not a verdict
+    if agg["start_failures"]:
+        ok = [w for w in agg["hello"]]
+        if ok and len(agg["start_failures"]) < len(vs):
+            good = vs[min(ok)]
+            wbad = min(agg["start_failures"])
+            sf = agg["start_failures"][wbad]
+            agg["import_variant_violation"] = {
+                "invariant": "H9", "function": None, "kind": "process-lifetime",
+                "task": None, "op": None,
+                "detail": {"key": "import", "error": sf["error"],
+                           "what": "the sub-packages import in one process variant and "
+                                   "fail to import in another (import order / hash seed / "
+                                   "-O flags)",
+                           "failing_variants": len(agg["start_failures"])},
+                "variants": [good, vs[wbad]]}
+        else:
+            for w, sf in agg["start_failures"].items():
+                agg["harness_errors"].append("worker %d: server start: %s" % (w, sf["error"]))
     return agg, wall, h9, vs, n
 
 
@@ -301,8 +338,25 @@ def verdict(agg, h9, quiet=False):
                       indent=1)
         lines.append("VIOLATION property=C20 replay=%s" % p)
         new += 1
+    iv = agg.get("import_variant_violation")
+    if iv is not None:
+        v = {k: iv[k] for k in ("invariant", "function", "kind", "task", "op", "detail")}
+        k = match_known(v, known)
+        if k is not None:
+            lines.append("KNOWN-FINDING: property=C20 %s" % k["what"])
+        else:
+            os.makedirs(os.path.join(VERIF, "replays"), exist_ok=True)
+            p = os.path.join(VERIF, "replays", "C20-H9-import.json")
+            with open(p, "w") as f:
+                json.dump({"format": 1, "property": "C20", "scenario": "import-variants",
+                           "variants": iv["variants"], "violation": v}, f, indent=1)
+            lines.append("VIOLATION property=C20 replay=%s" % p)
+            lines.append("  invariant=H9 kind=process-lifetime detail=%s"
+                         % json.dumps(v["detail"])[:400])
+            new += 1
     seen_known = set()
-    for msg in agg["violations"]:
+    # reproducible reports first
+    for msg in sorted(agg["violations"], key=lambda m: (not m.get("reproduced"), m["index"])):
         v = msg["violation"]
         k = match_known(v, known)
         if k is not None:
